@@ -123,6 +123,7 @@ static void scenario_graph(Rng& rng) {
     std::vector<Waiter> extra_waits(rounds);
     dsched::Sched& S = dsched::S();
     S.context = "graph";
+    S.spurious_den = rng.chance(1, 3) ? 8 : 0;   // a third of the scenarios with spurious wake-ups
     S.begin(rng.next(), (int)rng.below(dsched::STRATEGIES));
     uint64_t dtor_call = 0, dtor_ret = 0;
     size_t ids_before_end = 0;
@@ -229,6 +230,7 @@ static void scenario_terminate(Rng& rng) {
     World w(64);
     dsched::Sched& S = dsched::S();
     S.context = "terminate";
+    S.spurious_den = rng.chance(1, 3) ? 8 : 0;   // a third of the scenarios with spurious wake-ups
     S.begin(rng.next(), (int)rng.below(dsched::STRATEGIES));
     uint64_t ret1 = 0, ret2 = 0, dtor_ret = 0;
     {
@@ -287,6 +289,7 @@ static void scenario_rendezvous(Rng& rng) {
     World w(16);
     dsched::Sched& S = dsched::S();
     S.context = "rendezvous";
+    S.spurious_den = rng.chance(1, 3) ? 8 : 0;   // a third of the scenarios with spurious wake-ups
     S.begin(rng.next(), (int)rng.below(dsched::STRATEGIES));
     {
         tlx::ThreadPool pool(p);
